@@ -12,7 +12,7 @@ def eff_large(node) -> bool:
     returns the list of what its body observed - any nested child whose (oversized) value it contains."""
     if node.get("k") != "child" or node.get("raises"):
         return False
-    if node.get("large") or int(node.get("ser_size", 0)) > 256 * 1024:
+    if node.get("large") or int(node.get("ser_size", 0)) > 256 * 1024 or 6 * int(node.get("uni", 0)) + 2 > 256 * 1024:
         return True
     return any(eff_large(n) for n in node.get("body", []))
 
